@@ -307,7 +307,7 @@ def evidence(prop, tier, seed, results, kani_results, failed, undecided, known_h
     cov = {
         'obligations': obligations,
         'discharged': discharged,
-        'checker_cmd': '; '.join([r.cmd for r in results][:3] + [k.get('cmd', '') for k in kani_results][:2]),
+        'checker_cmd': '; '.join([r.cmd for r in results] + [k.get('cmd', '') for k in kani_results]),
         'trusted_base': ['Verus 0.2026.09.13 + Z3 (back end for all Verus units)', 'Kani 0.68 + CBMC 6.11 (back end for kani harnesses)',
                          'tool/ lexer, locator, weave, rewrite rules (rewrites machine-checked where machine_checked=true)'] + P.get('trusted', []),
         'samples': samples,
